@@ -1224,8 +1224,8 @@ func matchCryptoMap(al, bl []*cmd, f func([]*cmd, []*cmd)) {
 	}
 	mapPeerToSeq := func(seqMap map[int][]*cmd) map[string]int {
 		m := make(map[string]int)
-		for seq, l := range seqMap {
-			m[getPeer(l)] = seq
+		for _, seq := range slices.Sorted(maps.Keys(seqMap)) {
+			m[getPeer(seqMap[seq])] = seq
 		}
 		return m
 	}
